@@ -89,8 +89,10 @@ macro_rules! slices {
 macro_rules! indices {
     ($rep:ident, $T:ident, $N:expr, [$(($name:literal, $call:expr)),*]) => {{
         let tn = stringify!($T);
-        $rep.sweep(&format!("{tn}/index arguments 0..N+2 and usize::MAX"), ($N + 4) as u64, |idx, acc| {
-            let i: usize = if idx as usize == $N + 3 { usize::MAX } else { idx as usize };
+        // 0..N+2, usize::MAX and the indices at which index arithmetic (i*N, i+k, casts to u32/i32) wraps
+        const HUGE: [usize; 9] = [usize::MAX, usize::MAX - 1, 1 << 63, (1 << 63) + 1, (1 << 62) + 1, 1 << 32, (1 << 32) + 1, 1 << 31, (usize::MAX / 3) + 1];
+        $rep.sweep(&format!("{tn}/index arguments 0..N+2, usize::MAX and wrap-around indices"), ($N + 3 + HUGE.len()) as u64, |idx, acc| {
+            let i: usize = if idx as usize >= $N + 3 { HUGE[idx as usize - ($N + 3)] } else { idx as usize };
             let sh = <$T as Shapes>::shapes(); let v = sh[5 % sh.len()].clone();
             $(
                 let f: fn(&$T, usize) = $call;
@@ -250,5 +252,13 @@ fn main() {
     conversions(&mut rep);
     rep.sample(json!({"totality": "Vec3::rotate_towards(self, rhs, max_angle)", "args": "20 x 20 x 16 shapes, e.g. (zero, NaN-lane, -inf)", "oracle": "no panic"}));
     rep.sample(json!({"memory": "Vec3A::write_to_slice", "len": 3, "buffer": "Box<[f32]> of exactly 3 elements between canary allocations", "oracle": "3 elements written, no neighbouring byte touched (ASan: no 16-byte store)"}));
+    // operator trait impls: every form agrees with the by-value form (panic parity included) and
+    // Sum / Product of no, one and several elements are the folds from the identity - none may panic
+    if !miri {
+        harness::opforms::run(&mut rep, "fvec", harness::opforms::OPFORMS_FVEC);
+        harness::opforms::run(&mut rep, "mat", harness::opforms::OPFORMS_MAT);
+        harness::opforms::run(&mut rep, "quat", harness::opforms::OPFORMS_QUAT);
+        harness::opforms::run(&mut rep, "affine", harness::opforms::OPFORMS_AFFINE);
+    }
     std::process::exit(rep.finish());
 }
